@@ -103,4 +103,25 @@ META = {
         note=("Partial: the scheduler model is an abstraction of tokio validated only by the tie; single-waiter conditions; timers / inject queue / remote queue and cross-module wakes not covered. "
               "Trusted: Lean kernel, standard axioms, harness, driver, orchestrator. The model mirrors /repo after the two C06 repairs (event_interval, drain loop in Harness::exec)."),
         technique=_T),
+    "C08": dict(
+        text=("Lean 4 theorems: the model of gate.rs (two slots per gate, connect, next_hop, PathIter) and of the message walk (handle_with_sink / buf_send_at / send_at) "
+              "keeps, for every sequence of connect calls in any order and orientation, a representation invariant against the abstract 'disjoint simple paths + rings' "
+              "(C08.connects_refine_paths, connect_step); corollaries for chains of any length: path_iter enumerates the path (walk_enumerates_path), the walk from the far end "
+              "is the exact mirror image (walk_mirror), a message is handed exactly once to the far-end owner at send time + sum of hop delays with last_gate/receiver set "
+              "(delivered_once_to_far_owner, arrival_time_eq_send_plus_sum_of_hop_delays, header_fields), connect symmetric/idempotent, degree <= 2. Tied to the code by "
+              "replaying thousands of generated simulations built with the real builder API."),
+        design_ref="DESIGN.md §5 C08",
+        note=("Trusted: Lean kernel; the three standard axioms; the hand transcription Rust->Lean; harness/driver/orchestrator. Channels are represented by the delay of an idle "
+              "channel (C07 owns busy/queue/drop); the inactive-owner drop is proved on the model but not exercised by the harness; sender_module_id is observed, not modelled."),
+        technique=_T),
+    "C19": dict(
+        text=("Lean 4 theorems about the model of topology.rs over the C08 gate model: from_modules yields one edge per endpoint gate, in order, labelled with the two end gates "
+              "and leading to the owner of the far end (chains <= 16 hops); spanned (FIFO work-list, i.e. with the F8 repair) terminates, its predicted node indices are exact, "
+              "its edges are one per endpoint gate and its node set is exactly the set reachable from the root; bidirectional matches its definition; decide'd witnesses show "
+              "the pre-repair LIFO work-lists wrong (spanned edges to wrong nodes, dijkstra not min-hop). Every run compares global/spanned/filtered views, dijkstra, connected, "
+              "bidirectional, edges_for of generated module graphs on the real code with the model and the abstract module graph."),
+        design_ref="DESIGN.md §5 C19, §6 F8",
+        note=("Partial: dijkstra minimality, filter_nodes and connected are checked against the abstract graph on every run (Graph.dist / induced / connected) but not yet proved in Lean. "
+              "Vector indexing is modelled with getD under the well-formedness predicate WF, which the constructors are proved to establish. Model mirrors /repo after the F8 fix."),
+        technique=_T),
 }
